@@ -1,9 +1,16 @@
-"""C04 (partial) -- NLO quark and gluon coefficients of F2, FL, F3, g1 equal their published closed forms for all z.
+"""C04 -- NLO closed forms for all z, and the Adler / Gross-Llewellyn-Smith / Bjorken first moments.
 
-Claimed clause only.  The real NLO kernels are reached through the light.{f2,fl,f3,g1}_{nc,cc} channel classes
+Closed forms.  The real NLO kernels are reached through the light.{f2,fl,f3,g1}_{nc,cc} channel classes
 and executed on a symbolic z; z3 proves equality with the MS-bar closed forms (a_s = alpha_s/4pi normalisation):
 Bardeen-Buras-Duke-Muta / Furmanski-Petronzio for F2, FL, F3, Zijlstra-van Neerven / de Florian-Sassot for g1.
-The sum-rule / Mellin-moment clauses are NOT claimed (definite integrals: no SMT encoding within reach).
+
+First moments.  The regular part of every non-singlet kernel that enters a sum rule is executed once on the formal
+generator z of yv.engine.formal (finite sums of c(nf) z^a ln^b z ln^c(1-z) (1-z)^-d, nf a z3 Real): the kernel's own
+arithmetic produces its exact expansion, the integral over (0,1) is linear in the coefficients, and together with the
+local part at x = 0 (plus-distributions integrate to zero, their consistency with the local part is C03) the first
+moment is a polynomial in nf.  z3 decides, for every real nf in [3,6], |moment(nf) - series coefficient(nf)| <= tau.
+tau is 1e-9 at NLO (exact forms) and the accuracy of the published x-space parametrisations at NNLO (0.03) and N3LO
+(0.25) -- the moments are O(50) and O(1000) there.  Mellin moments other than N = 1 are not claimed.
 """
 
 import math
@@ -11,7 +18,7 @@ import math
 import numpy as np
 import z3
 
-from yv.engine import explore, harness, real, stubs
+from yv.engine import explore, formal, harness, real, stubs
 from yv.engine.real import S, Ctx
 from yv.props import common as cm
 
@@ -86,7 +93,140 @@ def replay_nlo(args):
     return (True, f"light.{mod}.{cls}: " + "; ".join(msgs)) if msgs else (False, "equal to the closed form")
 
 
-REPLAYERS = {"nlo": replay_nlo}
+# ---- first moments (Adler, Gross-Llewellyn-Smith, Bjorken) -----------------------------------------------------------------
+ZETA3 = real.Fr("1.202056903159594285399738161511")
+ZETA5 = real.Fr("1.036927755143369926331365486457")
+Fr = real.Fr
+
+
+def bj2(nf):
+    """a_s^2 coefficient of the Bjorken/GLS series (Gorishny-Larin 1986), a_s = alpha_s/(4 pi)"""
+    return -16 * (Fr(55, 12) - nf / 3)
+
+
+def bj3(nf):
+    """a_s^3 coefficient of the Bjorken series (Larin-Vermaseren 1991) = GLS without the light-by-light (fl02) term"""
+    return -64 * (Fr(13841, 216) + Fr(44, 9) * ZETA3 - Fr(55, 2) * ZETA5 - nf * (Fr(10339, 1296) + Fr(61, 54) * ZETA3 - Fr(5, 3) * ZETA5)
+                  + Fr(115, 648) * nf * nf)
+
+
+def gls_fl02(nf):
+    """light-by-light term of the GLS series: + nf (d^abc d_abc / Nc = 10/3) (zeta3/6 - 11/144) (alpha_s/pi)^3"""
+    return 64 * nf * Fr(10, 3) * (ZETA3 / 6 - Fr(11, 144))
+
+
+TAU = {"NLO": Fr(1, 10**9), "NNLO": Fr(3, 100), "N3LO": Fr(1, 4)}
+# (sum rule, module, class, order, reference(nf))
+MOMENTS = [
+    ("Adler", "f2_cc", "NonSingletOdd", "NLO", lambda nf: 0 * nf), ("Adler", "f2_cc", "NonSingletOdd", "NNLO", lambda nf: 0 * nf),
+    ("Adler", "f2_cc", "NonSingletOdd", "N3LO", lambda nf: 0 * nf),
+    ("GLS", "f3_cc", "NonSingletOdd", "NLO", lambda nf: -4 + 0 * nf), ("GLS", "f3_cc", "NonSingletOdd", "NNLO", bj2), ("GLS", "f3_cc", "NonSingletOdd", "N3LO", bj3),
+    ("GLS", "f3_cc", "Valence", "N3LO", gls_fl02),
+    ("GLS", "f3_nc", "NonSinglet", "NLO", lambda nf: -4 + 0 * nf), ("GLS", "f3_nc", "NonSinglet", "NNLO", bj2), ("GLS", "f3_nc", "NonSinglet", "N3LO", bj3),
+    ("GLS", "f3_nc", "Valence", "N3LO", gls_fl02),
+    ("Bjorken", "g1_nc", "NonSinglet", "NLO", lambda nf: -4 + 0 * nf), ("Bjorken", "g1_nc", "NonSinglet", "NNLO", bj2),
+]
+
+
+def get_rsl_order(mod, cls, order, nf):
+    import importlib
+
+    m = importlib.import_module(f"yadism.coefficient_functions.light.{mod}")
+    return getattr(getattr(m, cls)(cm.StubESF(0.1, 10.0, "NC", cm.Info()), nf), order)()
+
+
+def sym_args(a4, a5, NF):
+    """argument vector with nf replaced by the symbol: the entries that are 4 for nf=4 and 5 for nf=5"""
+    out = []
+    for x, y in zip(list(a4), list(a5)):
+        if float(x) == 4.0 and float(y) == 5.0:
+            out.append(NF)
+        elif float(x) == float(y):
+            out.append(float(x))
+        else:
+            raise formal.NotFormal(f"argument depends on nf in an unknown way ({x} at nf=4, {y} at nf=5)")
+    return out
+
+
+def float_moment(mod, cls, order, nf):
+    """first moment by float quadrature of the real kernel (replay)"""
+    import scipy.integrate as si
+
+    rsl = get_rsl_order(mod, cls, order, 4)
+    rsl5 = get_rsl_order(mod, cls, order, 5)
+    tot = 0.0
+    if rsl.reg is not None:
+        args = np.array(sym_args(rsl.args["reg"], rsl5.args["reg"], float(nf)), dtype=float)
+        tot += si.quad(lambda z: float(rsl.reg(z, args)), 0, 1, epsabs=1e-11, epsrel=1e-11, limit=500)[0]
+    if rsl.loc is not None:
+        args = np.array(sym_args(rsl.args["loc"], rsl5.args["loc"], float(nf)), dtype=float)
+        tot += float(rsl.loc(0.0, args))
+    return tot
+
+
+def replay_moment(args):
+    import warnings
+
+    rule, mod, cls, order, nf = args["rule"], args["mod"], args["cls"], args["order"], float(args["nf"])
+    ref = float([m for m in MOMENTS if m[:4] == (rule, mod, cls, order)][0][4](real.tofrac(nf)))
+    with warnings.catch_warnings():
+        warnings.simplefilter("ignore")
+        got = float_moment(mod, cls, order, nf)
+    tau = float(TAU[order])
+    bad = abs(got - ref) > tau * (1 - 1e-6) + 1e-9
+    return bad, f"light.{mod}.{cls} {order} at nf={nf}: first moment {got:.9g}, {rule} series coefficient {ref:.9g} (tolerance {tau:g})"
+
+
+REPLAYERS = {"nlo": replay_nlo, "moment": replay_moment}
+
+
+def run_moments(chk):
+    chk.section("moments")
+    nid = formal.table_selfcheck()
+    done = []
+    for rule, mod, cls, order, ref in MOMENTS:
+        cname = f"light.{mod}.{cls}/{order}/first-moment"
+        with Ctx(chk.seed) as ctx:
+            NF = ctx.var("nf", 3, 6, lo_open=False, hi_open=False)
+            try:
+                rsl, rsl5 = get_rsl_order(mod, cls, order, 4), get_rsl_order(mod, cls, order, 5)
+                if rsl is None or rsl.reg is None:
+                    chk.obligations += 1
+                    chk.report(f"mom:{mod}.{cls}:{order}:missing", f"{cname}: no coefficient function at this order", "moment",
+                               dict(rule=rule, mod=mod, cls=cls, order=order, nf=4))
+                    continue
+                expr = formal.Poly.lift(rsl.reg(formal.Z, sym_args(rsl.args["reg"], rsl5.args["reg"], NF)))
+                # translator validation: the expansion is the kernel (floats, real code) at three points
+                for zz, nn in ((0.37, 4.0), (0.011, 3.0), (0.93, 6.0)):
+                    fa = np.array(sym_args(rsl.args["reg"], rsl5.args["reg"], nn), dtype=float)
+                    want = float(rsl.reg(zz, fa))
+                    have = expr.evaluate(zz, lambda c, nn=nn: float(z3.simplify(z3.substitute(c.t, (NF.t, real.zval(real.tofrac(nn))))).as_fraction())
+                                         if c.const is None else float(c.const))
+                    chk.tv_note(cname, abs(have - want) <= 1e-9 * max(1.0, abs(want)), f"expansion {have!r} vs kernel {want!r} at z={zz}, nf={nn}")
+                mom = expr.integral()
+                if rsl.loc is not None:
+                    mom = mom + S.lift(rsl.loc(0.0, sym_args(rsl.args["loc"], rsl5.args["loc"], NF)))
+            except formal.NotFormal as e:
+                chk.inconclusive_note(f"{cname}: kernel outside the formal algebra ({e})")
+                continue
+            tau = real.zval(TAU[order])
+            r = S.lift(ref(NF))
+            claim = z3.And(mom.t - r.t <= tau, r.t - mom.t <= tau)
+
+            def rp(model, ctx=ctx, rule=rule, mod=mod, cls=cls, order=order):
+                asg = explore.model_to_assign(ctx, model)
+                return "moment", dict(rule=rule, mod=mod, cls=cls, order=order, nf=float(asg.get("nf", ctx.assign.get("nf", 4))))
+
+            chk.prove(f"{cname}: |moment - {rule} coefficient| <= {float(TAU[order]):g} for all nf in [3,6]", claim, ctx.facts(), key=f"mom:{mod}.{cls}:{order}",
+                      replay=rp, what=f"{cname}: first moment differs from the {rule} series coefficient")
+            done.append((cname, len(expr.t)))
+            if (mod, cls, order) == ("f3_nc", "NonSinglet", "NNLO"):
+                # vacuity guard: a reference displaced by 3 tau must be refutable
+                chk.expect_sat("displaced reference is refuted", ctx.facts() + [z3.Not(z3.And(mom.t - r.t - 3 * tau <= tau, r.t + 3 * tau - mom.t <= tau))],
+                               what="perturbation", ctx=ctx)
+    chk.sections["moments"] = {"classes": [d[0] for d in done], "monomials_per_kernel": {d[0]: d[1] for d in done},
+                               "integral_table_entries": formal.monomial_integral.cache_info().currsize, "table_identities_checked": nid,
+                               "tolerances": {k: float(v) for k, v in TAU.items()}}
 
 
 def run(chk, only=None):
@@ -94,8 +234,20 @@ def run(chk, only=None):
 
     chk.encode(nlo.f2.ns_reg, nlo.f2.gluon_reg, nlo.fl.ns_reg, nlo.fl.gluon_reg, nlo.f3.ns_reg, nlo.g1.ns_reg, nlo.g1.gluon_reg)
     chk.bounds = {"z": "(0,1) symbolic, exact identity in (z, ln z, ln(1-z))", "nf": "3..6", "classes": [f"light.{m}.{c}" for _, m, c, _ in TARGETS],
-                  "claim": "ONLY the NLO closed-form clause; Adler/GLS/Bjorken first moments and NNLO/N3LO Mellin moments are NOT claimed"}
-    chk.assume("delta coefficients compared to 1e-12 with a 30-digit rational for zeta2", "a_s = alpha_s/(4 pi) normalisation of the published forms")
+                  "first moments": {"classes": [f"light.{m}.{c}/{o} ({r})" for r, m, c, o, _ in MOMENTS], "nf": "every real nf in [3,6]",
+                                    "tolerance": {k: float(v) for k, v in TAU.items()}},
+                  "claim": "NLO closed forms for all z; Adler, GLS (incl. the fl02 light-by-light class) and Bjorken first moments at every available order. "
+                           "Mellin moments other than N=1 are NOT claimed"}
+    chk.assume("delta coefficients compared to 1e-12 with a 30-digit rational for zeta2", "a_s = alpha_s/(4 pi) normalisation of the published forms",
+               "first moments: integrals of the monomials z^a ln^b z ln^c(1-z) (1-z)^-d are taken from a 35-digit table (mpmath quadrature, checked against "
+               "closed forms); plus-distributions integrate to zero (their consistency with the local part is C03)",
+               "first moments: tolerance 1e-9 (NLO, exact forms), 0.03 (NNLO) and 0.25 (N3LO): accuracy of the published x-space parametrisations "
+               "(moments are O(50) resp. O(1000)); series coefficients from Gorishny-Larin 1986 and Larin-Vermaseren 1991")
+    if only in (None, "moments"):
+        chk.encode(*[f for f in (getattr(get_rsl_order(m, c, o, 4), "reg", None) for _, m, c, o, _ in MOMENTS) if f is not None])
+        run_moments(chk)
+    if only == "moments":
+        return chk.finish(explanation="first moments only (developer run)", rule="one obligation per (class, order)")
     for kind, mod, cls, ch in TARGETS:
         for nf in (3, 4, 5, 6) if chk.tier == "thorough" or ch == "g" else (4,):
             cname = f"light.{mod}.{cls}/NLO/nf{nf}"
@@ -158,7 +310,10 @@ def run(chk, only=None):
     return chk.finish(
         explanation="The NLO kernels, reached through the light channel classes (NC and the CC even/odd aliases), are executed on a symbolic z "
         "and z3 proves, as an exact identity in (z, ln z, ln(1-z)), equality of the regular parts, plus-distribution coefficients and "
-        "(to 1e-12) delta coefficients with the published MS-bar closed forms for F2, FL, F3 and g1, quark and gluon, nf 3..6. The "
-        "sum-rule and Mellin-moment clauses of C04 are not claimed.",
-        rule="one obligation per (class, nf, part); distinct = (class, part); non-trivial = symbolic z",
+        "(to 1e-12) delta coefficients with the published MS-bar closed forms for F2, FL, F3 and g1, quark and gluon, nf 3..6. "
+        "First moments: the regular part of each non-singlet kernel entering the Adler, GLS and Bjorken sum rules (NLO, NNLO, N3LO; g1 to NNLO) is executed "
+        "on a formal z, which turns it into its exact expansion in z^a ln^b z ln^c(1-z); integrated term by term and added to the local part at x=0 it is a "
+        "polynomial in nf that z3 compares with the series coefficient for every real nf in [3,6] (tolerance = accuracy of the parametrisations). "
+        "Mellin moments other than N=1 are not claimed.",
+        rule="one obligation per (class, nf, part) resp. (class, order); distinct = (class, part); non-trivial = symbolic z resp. symbolic nf",
     )
